@@ -187,6 +187,43 @@ theorem addNode_inv (H : Bytes → Bytes) :
       have := ih (h + 1) hi (mkBranch H root n) (lo ++ ls) (w ++ [⟨.left, root.hashOf⟩]) hr (isTree_mkBranch ht hn)
       simpa [he, List.append_assoc] using this
 
+/-- the witness `addNode` returns folds the new node's hash up to the root it ends in -/
+theorem addNode_witness (H : Bytes → Bytes) (hlen : ∀ x, (H x).length = 32) :
+    ∀ (rs : List (Option Node)) (h : Nat) (items : List Bytes) (n : Node) (ls : List Bytes) (w0 : List Witness),
+      RootsInv H h rs items → IsTree H h n ls →
+      ∃ wk t', (addNode H rs n w0).2 = w0 ++ wk ∧ All32 wk ∧
+        (addNode H rs n w0).1[wk.length]? = some (some t') ∧ foldHash H wk n.hashOf = t'.hashOf := by
+  intro rs
+  induction rs with
+  | nil =>
+    intro h items n ls w0 _ _
+    exact ⟨[], n, by simp [addNode], by simp [All32], by simp [addNode], by simp [foldHash]⟩
+  | cons r rest ih =>
+    intro h items n ls w0 hinv hn
+    cases r with
+    | none => exact ⟨[], n, by simp [addNode], by simp [All32], by simp [addNode], by simp [foldHash]⟩
+    | some root =>
+      simp only [RootsInv] at hinv
+      obtain ⟨hi, lo, _, ht, hr⟩ := hinv
+      have hrh := ht.hashLen hlen
+      have hnh := hn.hashLen hlen
+      obtain ⟨wk, t', e1, e2, e3, e4⟩ := ih (h + 1) hi (mkBranch H root n) (lo ++ ls)
+        (w0 ++ [⟨.left, root.hashOf⟩]) hr (isTree_mkBranch ht hn)
+      refine ⟨⟨.left, root.hashOf⟩ :: wk, t', ?_, ?_, ?_, ?_⟩
+      · simp only [addNode]; rw [e1]; simp
+      · intro x hx
+        simp only [List.mem_cons] at hx
+        rcases hx with hx | hx
+        · subst hx; exact hrh
+        · exact e2 x hx
+      · simp only [addNode, List.length_cons, List.getElem?_cons_succ]; exact e3
+      · have : foldHash H (⟨.left, root.hashOf⟩ :: wk) n.hashOf = foldHash H wk (H (root.hashOf ++ n.hashOf)) := by
+          simp [foldHash]
+        rw [this, ← e4]
+        congr 1
+        show H (root.hashOf ++ n.hashOf) = H (ser root.hashOf n.hashOf)
+        rw [ser_eq _ _ hrh hnh]
+
 /-- number of items under `roots[h:]` -/
 theorem RootsInv.nil_of_items {H h items} (hi : RootsInv H h [] items) : items = [] := by
   simpa [RootsInv] using hi
